@@ -1763,6 +1763,22 @@ def m_math_sqrt(interp, args, kwargs):
         raise ProgExc(ex)
 
 
+def m_math_log(interp, args, kwargs):
+    """math.log(x[, base]) on a symbol: an unconstrained float (binary floating point log is only an estimate;
+    contracts that depend on it must survive any value).  Domain error for x <= 0 as in CPython."""
+    v = args[0]
+    if isinstance(v, StrOf):
+        v = v.sv
+    if isinstance(v, SV) or any(isinstance(a, SV) for a in args[1:]):
+        if isinstance(v, SV) and interp.path.branch(as_real_term(v) <= 0):
+            raise ProgExc(ValueError("math domain error"))
+        return SV(interp.path.fresh_real("mathlog"), FLT)
+    try:
+        return math.log(*args)
+    except Exception as ex:
+        raise ProgExc(ex)
+
+
 def m_sorted(interp, args, kwargs):
     items = list(interp.iterate(args[0]))
     if any(contains_sym(x) for x in items):
@@ -1857,9 +1873,10 @@ def _install_api_models():
 
 
 DEFAULT_MODELS = {
+    Decimal.sqrt: (lambda interp, args, kwargs: _sv_sqrt(interp, args[0]) if isinstance(args[0], SV) else args[0].sqrt()),
     Decimal: m_Decimal, int: m_int, float: m_float, bool: m_bool, str: m_str, abs: m_abs,
     min: _minmax(True), max: _minmax(False), sum: m_sum, len: m_len, isinstance: m_isinstance, type: m_type,
-    round: m_round, math.floor: m_math_floor, math.ceil: m_math_ceil, math.sqrt: m_math_sqrt, sorted: m_sorted,
+    round: m_round, math.log: m_math_log, math.floor: m_math_floor, math.ceil: m_math_ceil, math.sqrt: m_math_sqrt, sorted: m_sorted,
     list: m_list, tuple: m_tuple, any: m_any, all: m_all, print: m_noop, enumerate: m_enumerate, zip: m_zip,
     filter: m_filter, map: m_map,
 }
